@@ -57,6 +57,10 @@ Fixpoint hex_encode (b : bytes) : str :=
 
 Definition str_eqb (a b : str) : bool := list_eqb N.eqb a b.
 
+(* str::eq_ignore_ascii_case: same length, bytes equal after u8::to_ascii_lowercase *)
+Definition ascii_lower (c : N) : N := if (65 <=? c) && (c <=? 90) then c + 32 else c.
+Definition str_eqb_ci (a b : str) : bool := list_eqb (fun x y => ascii_lower x =? ascii_lower y) a b.
+
 (* helpers/crypto.rs: valid_hash_string = HexBinary::from_hex then to_array::<L>;
    string_to_byte_slice = hex::decode_to_slice into [0; L].  Both reject odd length,
    a non-hex character, and any decoded length other than L; both accept upper case. *)
@@ -110,10 +114,11 @@ Section Hash.
     end.
 
   (* Ok has_member | Err ("Invalid Merkle Proof") ; the stored root is a string and is
-     compared with the lower-case hex rendering of the final digest *)
+     compared, ignoring ASCII case, with the lower-case hex rendering of the final digest
+     (merkle_root.eq_ignore_ascii_case(&hex::encode(final_hash)), /repo c2c314c) *)
   Definition has_member (root : str) (member : str) (p : list str) : result bool :=
     do f <- fold_proof_str (H member) p;
-    Ok (str_eqb root (hex_encode f)).
+    Ok (str_eqb_ci root (hex_encode f)).
 
   (* ---------- rs_merkle layout ---------- *)
   (* PartialTree::build_tree, one layer up: concat_and_hash(left, Some right) for pairs,
